@@ -868,6 +868,15 @@ func (v *FnVC) evalCall(e *ECall, env *Env) Term {
 		c := v.evalTerm(e.Args[0], env)
 		k := v.regKey("CH:closed", "(Array Int Bool)")
 		return boolT(fmt.Sprintf("(select %s %s)", v.heapGet(env.st, k), c.S))
+	case "runeAt", "runeWidth": // the rune decoded at byte position p of s (as range-over-string does) and its width in bytes
+		a := v.evalTerm(e.Args[0], env)
+		b := v.evalTerm(e.Args[1], env)
+		v.S.declFun("rune_at", "(Str Int) Int")
+		v.S.declFun("rune_w", "(Str Int) Int")
+		if name == "runeAt" {
+			return Term{S: fmt.Sprintf("(rune_at %s %s)", a.S, b.S), Sort: "Int", T: types.Typ[types.Rune]}
+		}
+		return intT(fmt.Sprintf("(rune_w %s %s)", a.S, b.S))
 	case "chanFired":
 		c := v.evalTerm(e.Args[0], env)
 		v.S.declFun("chan_fired", "(Int) Bool")
@@ -1223,6 +1232,33 @@ func (v *FnVC) loopEnv(h *ssa.BasicBlock, li *LoopInfo, phiVal func(*ssa.Phi) Te
 				return phiVal(p), true
 			}
 			return v.val(p), true
+		}
+		if name == "outerindex" {
+			// the range index of the nearest enclosing range-over-slice loop
+			var best *LoopInfo
+			var bestH *ssa.BasicBlock
+			for oh, ol := range v.loops {
+				if ol == li || !ol.Blocks[h] {
+					continue
+				}
+				hasIdx := false
+				for _, ins := range oh.Instrs {
+					if p, ok := ins.(*ssa.Phi); ok && p.Comment == "rangeindex" {
+						hasIdx = true
+					}
+				}
+				if hasIdx && (best == nil || len(ol.Blocks) < len(best.Blocks)) {
+					best, bestH = ol, oh
+				}
+			}
+			if bestH != nil {
+				for _, ins := range bestH.Instrs {
+					if p, ok := ins.(*ssa.Phi); ok && p.Comment == "rangeindex" {
+						return v.val(p), true
+					}
+				}
+			}
+			return Term{}, false
 		}
 		return v.localByName(name, h, st)
 	}
